@@ -585,6 +585,50 @@ class PCTPolicy(Policy):
         return self._best(ready)
 
 
+class PublishPolicy(Policy):
+    """Pre-empt right after the running thread changed shared state: `watch()` returns
+    (structural, fine) fingerprints of the state the threads share (number of levels /
+    identity of containers; sizes of the newest containers).  A change between two yield
+    points was made by the thread that ran in between, so switching away at once puts the
+    other threads into the window in which something has been published and not yet
+    completed.  The thread switched to then runs a burst undisturbed."""
+
+    def __init__(self, rng, watch, p_struct, p_fine, p_base, burst):
+        self.rng = rng
+        self.watch = watch
+        self.p_struct, self.p_fine, self.p_base, self.burst = p_struct, p_fine, p_base, burst
+        self.last = None
+        self.quiet = 0
+
+    def decide(self, sched, tid, kind, frame):
+        try:
+            fp = self.watch()
+        except Exception:  # pylint: disable=broad-except
+            fp = self.last
+        last, self.last = self.last, fp
+        if last is None or fp == last:
+            if self.quiet > 0:
+                self.quiet -= 1
+                return None
+            p = self.p_base
+        elif fp[0] != last[0]:
+            p = self.p_struct
+            sched.count("preempt_after_publication_candidates")
+        else:
+            p = self.p_fine
+        if p and self.rng.random() < p:
+            ready = [t for t in sched.ready() if t != tid]
+            if ready:
+                if fp != last:
+                    sched.count("preempt_right_after_shared_state_change")
+                self.quiet = self.burst
+                return ready[self.rng.randrange(len(ready))]
+        return None
+
+    def pick(self, sched, ready, why):
+        return ready[self.rng.randrange(len(ready))]
+
+
 class StallPolicy(RandomWalkPolicy):
     """Random walk in which one thread is descheduled (a slow node) for a long
     stretch of global steps whenever somebody else can run."""
